@@ -112,7 +112,14 @@ func ReadOperatorCheckpoint(oc OpCheckpoint, keyGroups int) (keys map[string]*Ke
 	db := dkv.Open(dkv.DBOptions{FileSystem: storage.NewLocalFilesystem(scratch)},
 		[]recovery.CheckpointHandle{{CheckpointID: oc.Ckpt, URI: oc.URI}})
 	keys = map[string]*KeyState{}
-	for kg := 0; kg < keyGroups; kg++ {
+	// an operator checkpoint IS its key-group range of the files it names: after a rescale the tables an
+	// operator inherited still hold (stale) entries of key groups that now belong to its neighbours; a
+	// restoring operator never sees them (DataOwnership), so the read-back does not either
+	lo, hi := 0, keyGroups
+	if oc.End > oc.Start {
+		lo, hi = oc.Start, oc.End
+	}
+	for kg := lo; kg < hi; kg++ {
 		prefix := []byte{0, 0, 0x00}
 		binary.BigEndian.PutUint16(prefix, uint16(kg))
 		var scanErr error
